@@ -9,7 +9,7 @@ miss=0
 for d in seeded/*/; do
   name=$(basename "$d"); id=${name%%-*}
   [ -f "$d/patch.diff" ] || continue
-  if ! git -C /repo apply --check "$d/patch.diff" 2>/dev/null; then echo "$name: patch no longer applies (the code it changed was repaired or moved)"; continue; fi
+  if ! git -C /repo apply --check "$PWD/$d/patch.diff" 2>/dev/null; then echo "$name: patch no longer applies (the code it changed was repaired or moved)"; continue; fi
   r=$(./evalmut.sh "$id" "$PWD/$d/patch.diff" "$seed" 2>&1 | grep "^seed $seed:" | cut -c1-170)
   echo "$name: $r"
   case "$r" in *CAUGHT*) ;; *) miss=$((miss+1));; esac
